@@ -61,6 +61,7 @@ var Nil = &NilV{}
 type ChoiceV struct {
 	C    *smt.Term
 	A, B Value
+	Excl bool // canonical chain: the C guards along the B-chain are mutually exclusive
 }
 
 // Opaque is an environment object created by a stub (mutex, context, regexp, file info, …).
@@ -96,6 +97,10 @@ type ChanC struct {
 	Closed  *smt.Term
 	Cap     int
 	Sent    int // total physical sends (for stamps)
+	// ring mode (concurrent runs, small capacities): positional slots and a symbolic length
+	Ring  bool
+	Slots []Value
+	Len   *smt.Term
 }
 
 // IterV is a map / string range iterator.
